@@ -1,7 +1,9 @@
-#check @List.Nodup.map_on
-#check @List.nodup_map_iff
-#check @List.Pairwise.map
-#check @List.nodup_map_iff_inj_on
-example (l : List Nat) (g : Nat) (h : l.Nodup) : (l.map (fun id => (g, id))).Nodup := by
-  rw [List.Nodup, List.pairwise_map]
-  exact List.Pairwise.imp (fun hab h => hab (Prod.mk.inj h).2) h
+import AsmjitVerif.Props.C07
+open AsmjitVerif.Frame
+def wFrame : Frame :=
+  (((Frame.init ((initCallConv .a64 0 false).get (by decide)) (tbl4 0x80000 0x100 0 0) 0).setLocalSize 100).setLocalAlign 64).finalize
+theorem w2 : wFrame.hasDA = true ∧ wFrame.saRegId = 29 ∧ wFrame.finalAlign = 64 ∧ wFrame.saOffSp = invalidOff
+    ∧ (run .a64 ((a64Prolog wFrame).getD []) (initState .a64 0x40000000)).map
+        (fun s1 => (s1.gp 31 % 64, decide (s1.gp 29 = initGp 29))) = some (32, true) := by
+  decide
+#print axioms w2
